@@ -303,6 +303,7 @@ def q_insert_entry(bodies):
         verdict = "inconclusive"
     if any(p[1] != "inconclusive" for p in problems):
         verdict = "violated"
+    problems.sort(key=lambda p: p[1] == "inconclusive")  # a confirmed problem names the check
     return dict(name=name, property="C12", properties=props, verdict=verdict, detail="both origins; feasible paths=%d; problems: %s" % (ncases, problems[:4] or "none"),
                 functions=sorted(funcs) + ["validate_entry, ranger::Store::put, Store::get_download_policy, DownloadPolicy::matches, Subscribers::send (symbolic answers; decided by their own harnesses/queries)"],
                 queries=nq, cases=ncases, witness="insglue",
